@@ -96,5 +96,9 @@ static Register t6("c07.trim.n3s2.a2b3", "C07", "pairs of TRIMMED automata of TA
 static Register t7("c07.trim.n3ah.a2b3", "C07", "pairs of TRIMMED automata of TA(3,{a:0,h:3}): A <=2 x B <=3 rules (ternary symbol: large tuple products)", [](Env& e) { bodyTrim(e, "c07.trim.n3ah.a2b3", 3, dom::SigmaAH(), 2, 3); });
 static Register t8b("c07.trim.n3ah.a3b3", "C07", "pairs of TRIMMED automata of TA(3,{a:0,h:3}): A <=3 x B <=3 rules", [](Env& e) { bodyTrim(e, "c07.trim.n3ah.a3b3", 3, dom::SigmaAH(), 3, 3); });
 static Register t8("c07.trim.n3ah.a3b4", "C07", "pairs of TRIMMED automata of TA(3,{a:0,h:3}): A <=3 x B <=4 rules", [](Env& e) { bodyTrim(e, "c07.trim.n3ah.a3b4", 3, dom::SigmaAH(), 3, 4); });
+static Register t10("c07.trim.n3abf.a4b2", "C07", "pairs of TRIMMED automata of TA(3,{a:0,b:0,f:1}): A <=4 x B <=2 rules (unary chains/loops: the recursive downward search revisits ancestors)", [](Env& e) { bodyTrim(e, "c07.trim.n3abf.a4b2", 3, dom::SigmaABF(), 4, 2); });
+static Register t11("c07.trim.n3abf.a5b3", "C07", "pairs of TRIMMED automata of TA(3,{a:0,b:0,f:1}): A <=5 x B <=3 rules", [](Env& e) { bodyTrim(e, "c07.trim.n3abf.a5b3", 3, dom::SigmaABF(), 5, 3); });
+static Register t13("c07.trim.n3abf.a4b3", "C07", "pairs of TRIMMED automata of TA(3,{a:0,b:0,f:1}): A <=4 x B <=3 rules", [](Env& e) { bodyTrim(e, "c07.trim.n3abf.a4b3", 3, dom::SigmaABF(), 4, 3); });
+static Register t12("c07.trim.n4abf.a4b3", "C07", "pairs of TRIMMED automata of TA(4,{a:0,b:0,f:1}): A <=4 x B <=3 rules", [](Env& e) { bodyTrim(e, "c07.trim.n4abf.a4b3", 4, dom::SigmaABF(), 4, 3); });
 static Register t9("c07.trim.n4ag.a2b4", "C07", "pairs of TRIMMED automata of TA(4,{a:0,g:2}): A <=2 x B <=4 rules", [](Env& e) { bodyTrim(e, "c07.trim.n4ag.a2b4", 4, dom::SigmaAG(), 2, 4); });
 }  // namespace c07
